@@ -46,6 +46,9 @@ Far(d) ==
   /\ prev' = (IF cfg.f2 = 0 THEN d ELSE prev)
   /\ ev' = [e |-> "delay", d |-> d, far |-> TRUE]
   /\ UNCHANGED <<cfg, next, base>>
+\* the schedule is a function of the attempt number alone: the same object asked again from attempt 0 (after it has
+\* been driven to the cap and beyond, as a backoff shared by all requests of a layer is) answers as it did before
+Rewind == next' = 0 /\ base' = 0 /\ prev' = 0 /\ ev' = [e |-> "rewind"] /\ UNCHANGED cfg
 \* policy "none": no delay at all
 NoDelay == cfg.kind = "none" /\ ev' = [e |-> "nodelay"] /\ UNCHANGED <<cfg, next, base, prev>>
 \* a retry / reconnect loop against a dead backend ran its configured number of attempts and ended with an error
